@@ -29,6 +29,7 @@ import (
 	cbor "github.com/ipfs/go-ipld-cbor"
 	ipld "github.com/ipfs/go-ipld-format"
 	dag "github.com/ipfs/go-merkledag"
+	ft "github.com/ipfs/go-unixfs"
 	"github.com/ipfs/go-unixfs/importer/balanced"
 	ihelper "github.com/ipfs/go-unixfs/importer/helpers"
 	"github.com/ipfs/go-unixfs/importer/trickle"
@@ -177,6 +178,7 @@ type node struct {
 	content  []byte // file
 	children []*node
 	dir      bool
+	link     string // symbolic link target ("" = not a link)
 }
 
 func genContent(seed int64, n int) []byte {
@@ -207,6 +209,10 @@ func drawTree(t *rapid.T, depth, chunk int, forceDir bool) *node {
 			sort.Slice(n.children, func(i, j int) bool { return n.children[i].name < n.children[j].name })
 			return n
 		}
+		// inside a directory, one entry in eight is a symbolic link
+		if d > 0 && rapid.IntRange(0, 7).Draw(t, "symlink") == 0 {
+			return &node{name: name, link: rapid.SampledFrom([]string{"a", "../b.txt", "/abs/target", "ünï"}).Draw(t, "target")}
+		}
 		sizes := []int{0, 1, chunk - 1, chunk, chunk + 1, 3*chunk + rapid.IntRange(0, chunk-1).Draw(t, "r"), 7 * chunk, 7 * chunk, 12*chunk + 3}
 		sz := rapid.SampledFrom(sizes).Draw(t, "size")
 		return &node{name: name, content: genContent(int64(rapid.IntRange(0, 1<<30).Draw(t, "seed")), sz)}
@@ -215,6 +221,9 @@ func drawTree(t *rapid.T, depth, chunk int, forceDir bool) *node {
 }
 
 func toFiles(n *node) files.Node {
+	if n.link != "" {
+		return files.NewLinkFile(n.link, nil)
+	}
 	if !n.dir {
 		return files.NewBytesFile(n.content)
 	}
@@ -226,6 +235,9 @@ func toFiles(n *node) files.Node {
 }
 
 func (n *node) String() string {
+	if n.link != "" {
+		return fmt.Sprintf("%s->%s", n.name, n.link)
+	}
 	if !n.dir {
 		return fmt.Sprintf("%s(%d)", n.name, len(n.content))
 	}
@@ -297,6 +309,20 @@ func (c importCfg) builder() cid.Builder {
 
 func refImport(ds ipld.DAGService, n *node, c importCfg) (ipld.Node, error) {
 	ctx := context.Background()
+	if n.link != "" {
+		// what go-ipfs stores for a symbolic link: a unixfs node of type
+		// Symlink built with the requested CID version and hash function
+		data, err := ft.SymlinkData(n.link)
+		if err != nil {
+			return nil, err
+		}
+		nd := dag.NodeWithData(data)
+		nd.SetCidBuilder(c.builder())
+		if err := ds.Add(ctx, nd); err != nil {
+			return nil, err
+		}
+		return nd, nil
+	}
 	if !n.dir {
 		chnk, err := chunker.FromString(bytes.NewReader(n.content), c.chunker)
 		if err != nil {
@@ -392,6 +418,17 @@ func readBack(b *blockDag, c cid.Cid, n *node) error {
 	if err != nil {
 		return fmt.Errorf("%s: %v", n.name, err)
 	}
+	if n.link != "" {
+		pn, ok := nd.(*dag.ProtoNode)
+		if !ok {
+			return fmt.Errorf("%s: symbolic link stored as a non-protobuf node", n.name)
+		}
+		fsn, err := ft.FSNodeFromBytes(pn.Data())
+		if err != nil || fsn.Type() != ft.TSymlink || string(fsn.Data()) != n.link {
+			return fmt.Errorf("%s: not the symbolic link to %q that was added (err %v)", n.name, n.link, err)
+		}
+		return nil
+	}
 	if !n.dir {
 		r, err := uio.NewDagReader(ctx, nd, b)
 		if err != nil {
@@ -470,8 +507,21 @@ var optNorm = cmpx.Norm{DropAllocs: true}
 
 const rule = "case = file tree (0-2 levels, files of size 0, 1, chunk-1, chunk, chunk+1, 3 chunks + r, 7 chunks, names incl. hidden, unicode, spaces; a single file, a single directory or several entries with wrap) x chunker (size-32/64/256, rabin-16-32-64) x layout x raw leaves x CID version x hash function x pin options x destinations (1-3 real libp2p hosts with a recording BlockPut, or local) x sharding with a shard size giving 1-6 shards (or smaller than a chunk) (and a class with > 5984 links in one shard) x optional block-put failure at block k of destination d (once or from then on) or a transient failure of the put of a multi-chunk file's first chunk, or of the n-th shard node, on every destination; one case in six adds a destination nobody can reach x optional pin failure; oracle: delivered blocks closed under links from the root, every file reads back byte-identical through DagReader over delivered blocks only, root(sharded) = root(unsharded) = root of a reference importer built from go-unixfs primitives, pin log exactly as the statement says, failure of every destination for some block => error and no root/meta pin; non-trivial = >= 2 files with one larger than a chunk, or >= 2 shards, or a fault; distinct by rendering"
 
-func TestAdd(t *testing.T) {
-	leg := ev.L("add", rule)
+func TestAdd(t *testing.T) { addLeg(t, ev.L("add", rule)) }
+
+// forceHuge makes every case of the leg a sharded add of one file of more
+// than 2^16 distinct blocks whose last chunk repeats the first.
+var forceHuge bool
+
+const ruleHuge = "the sharded add of TestAdd with the file fixed to 66000 distinct 32-byte chunks followed by a copy of the first chunk (more blocks than any bounded bookkeeping of the adder is likely to hold; the repeated block must still be linked from exactly one shard), all other choices (layout, raw leaves, CID version, hash, pin options) drawn; same oracle; non-trivial = always"
+
+func TestAddHuge(t *testing.T) {
+	forceHuge = true
+	defer func() { forceHuge = false }()
+	addLeg(t, ev.L("add-huge", ruleHuge))
+}
+
+func addLeg(t *testing.T, leg *ev.Leg) {
 	ctx := context.Background()
 	rapid.Check(t, func(t *rapid.T) {
 		resetFixture()
@@ -485,7 +535,7 @@ func TestAdd(t *testing.T) {
 		if ic.cidV == 1 {
 			ic.hash = rapid.SampledFrom([]string{"sha2-256", "sha2-512", "blake2b-256"}).Draw(t, "hash")
 		}
-		many := rapid.IntRange(0, 200).Draw(t, "manylinks") == 137
+		many := rapid.IntRange(0, 200).Draw(t, "manylinks") == 137 || forceHuge
 		var top *node
 		wrap := false
 		if many {
@@ -497,6 +547,10 @@ func TestAdd(t *testing.T) {
 		if many {
 			ic.chunker, chunk = "size-32", 32
 			top = &node{name: "big", content: genContent(7, 32*6100)}
+			if forceHuge {
+				b := genContent(9, 32*66000)
+				top = &node{name: "huge", content: append(b, b[:32]...)}
+			}
 		} else {
 			// half of the cases start from a directory with several entries (more
 			// file boundaries for shards to fall on)
